@@ -66,3 +66,10 @@ chk('C06', 'exploration',
     '.eh_frame sections; tables decoded in arbitrary order with stream poisoning.',
     'Interpreter and generator mine; well-formedness constraints of 6.4.2 kept by the generator; canonicalised table comparison.',
     'ground-truth generator + reference interpreter oracle, stream poisoning', 'DESIGN.md section 4 C06')
+chk('C07', 'exploration',
+    'Ground-truth oracle: generated v5 (.debug_rnglists/.debug_loclists with several unit blocks, offset tables, every DW_RLE/DW_LLE '
+    'kind incl. indexed ones over .debug_addr, gaps, view pairs, trailing gaps) and pre-v5 (.debug_loc/.debug_ranges) sections with the '
+    'referring units; fetch by offset / attribute / index, translation, block headers and offset arrays, all four enumerators and the '
+    'attribute classification are compared, with the shared section streams repositioned at every generator yield and between calls.',
+    'Generators independent of elftools; address size = container default; classification judged only where DWARF fixes it.',
+    'ground-truth generator oracle + stream-position poisoning at generator yields', 'DESIGN.md section 4 C07')
